@@ -49,7 +49,7 @@ MANIFEST = {
              "verif-tag hook lets the driver hold the real Stop after a chosen step while the client keeps running. "
              "TLC evaluates StopReturns / CallersReleased / CallerErrorClass / ReopenConsistent of ShutdownProps.tla on "
              "the recorded events; every recorded trace is also checked to be a behaviour of the model (drift).",
-        note="Quick: all single activities x 3 pools (+ begun after Stop, + dial in progress), two seed-chosen pairs and "
+        note="Quick: all single activities x 3 pools (+ begun after Stop, + dial in progress, + no peer ever connected), two seed-chosen pairs and "
              "(subscribe, mid-sync); thorough: all pairs. Bound for 'bounded time': 90 s (normal Stop: 0.05-3 s). Peers are the netsim mock nodes; a dial is assumed "
              "to return in bounded time. Reopen checks stores open, tips readable, filter tip <= block tip, last 50 "
              "headers linked, NewChainService succeeds; chain validity proper is C01/C03. The interleaving of "
